@@ -30,8 +30,9 @@ class Ctx:
     def violation(self, key, what, replay):
         """key: structured signature of the failure (used for de-duplication and known-findings matching)"""
         self.vcount += 1
-        if key not in self.violations:
-            self.violations[key] = {'what': what, 'replay': replay}
+        sz = len(repr(replay))
+        if key not in self.violations or sz < self.violations[key]['size']:
+            self.violations[key] = {'what': what, 'replay': replay, 'size': sz}   # keep the smallest witness
 
     def merge_violations(self, lst):
         for key, what, replay in lst:
